@@ -96,3 +96,21 @@ extend("C15", "lock-pairing must-pass analysis on the check path; unbuffered-sen
 extend("C16", "every-store check on the forward mapping (NewV5(network, name) and nothing else); stride-equals-chunk and bound-invariance checks on the chunked reverse look-up")
 extend("C18", "guard classification of every URL key write (presence tests only)")
 extend("C19", "must-pass check that the failed-parse branch restores or removes the staged entry on every path; CFG search for event-loop iterations that reach no handler")
+
+# ---- round 3
+extend("C01", "field-type and package-variable audit of the request-serving singletons (no cache in the engines)")
+extend("C02", "must-pass check that a negation marks the enclosing negation also when its child comes back undetermined")
+extend("C03", "error clause of the pass-through contract (a stage that rebuilds the Result must carry Err)")
+extend("C04", "strict-parse requirement on REST write entries that read the URL query; presence-only guards in the query mappers; the C16 forward-mapping rules")
+extend("C05", "who-may-call rule for case-folding functions in the write handlers; error-discipline analysis of every ketoapi decoder/validator call in the relationship handlers")
+extend("C06", "data-dependence of every returned http.Handler on the negroni stack built in the same function")
+extend("C07", "guard classification of the page-token option (token value and error returns only); statement count per page of GetRelationTuples; select-list check for the traversal's cursor column")
+extend("C09", "the C03 error-discipline rules run on the expand engine")
+extend("C10", "sibling cross-check of every dispatch of the parser: arms that go on parsing agree on accepting the optional ',' separator")
+extend("C11", "typed-nil check on every pointer-to-AST-interface conversion in the parser; must-pass check that nil results of the expression parser follow a recorded error; error on the exhausted side of depth budgets; who-may-call rule for case-folding functions")
+extend("C12", "format-verb analysis: token text enters messages through %q only")
+extend("C13", "format-verb analysis of OPL messages; presence-only guards in the query mappers; strict-parse requirement on write entries")
+extend("C15", "the C07 paging-agreement rules run on the storage page loops")
+extend("C16", "statement-kind rule on the mapping table; write-through-parameter summary for the input strings")
+extend("C18", "allocation-site check: the receiver of a ketoapi decoder inside a loop is allocated in that loop")
+extend("C19", "write audit of the error-event handlers; source check of io.ReadAll in the change handlers")
